@@ -536,8 +536,9 @@ fn tex(seed: u64) -> W {
     let mut w = W::new(false);
     let formats = [0x1440u32, 0x1450, 0x3420, 0x3431, 0x6230];
     let format = formats[(seed % 5) as usize];
-    let width = 4 * r.range(1, 3);
-    let height = 4 * r.range(1, 3);
+    // seeds 1..5: dimensions that are multiples of the 4 x 4 block; higher seeds: any dimensions
+    // (block-compressed formats then end in partial blocks)
+    let (width, height) = if seed <= 5 { (4 * r.range(1, 3), 4 * r.range(1, 3)) } else { (r.range(1, 14), r.range(1, 14)) };
     let depth = if format == 0x1450 { r.range(1, 2) } else { 1 };
     w.n32("attribute", if depth > 1 { 0x0100_0000 } else { 0x0080_0000 });
     w.n32("format", format);
@@ -555,8 +556,8 @@ fn tex(seed: u64) -> W {
     let size = match format {
         0x1440 => width * height * 2,
         0x1450 => width * height * depth * 4,
-        0x3420 => (width / 4) * (height / 4) * 8,
-        _ => (width / 4) * (height / 4) * 16,
+        0x3420 => width.div_ceil(4) * height.div_ceil(4) * 8,
+        _ => width.div_ceil(4) * height.div_ceil(4) * 16,
     };
     for _ in 0..size {
         w.u8(r.u8());
